@@ -10,6 +10,7 @@ import re
 from dataclasses import dataclass, field, replace
 
 BARE = re.compile(r'[A-Za-z0-9_]+\Z')
+KEY_WORDS = {'pk', 'note', 'default', 'ref', 'unique', 'increment', 'null', 'indexes'}
 
 
 @dataclass(frozen=True)
@@ -85,6 +86,13 @@ class W:
             self.out.append(Tok(name, 'name'))
         else:
             self.out.append(Tok(f'"{name}"', 'name'))
+
+    def key(self, name):
+        """a property / project item key: a word with a meaning of its own in that position is a key only when quoted"""
+        if name.lower() in KEY_WORDS:
+            self.out.append(Tok(f'"{name}"', 'name'))
+        else:
+            self.ident(name)
 
     def string(self, text, style=None):
         self.out.append(Tok(quote(text, style or self.s.string), 'str'))
@@ -273,7 +281,7 @@ def write_column(w: W, m, t, c, path):
         items.append(('ref', f))
     for k, v in c['properties']:
         def f(k=k, v=v):
-            w.ident(k)
+            w.key(k)
             w.p(':')
             w.sp()
             w.string(v)
@@ -441,7 +449,7 @@ def write_table(w: W, m, t, ti):
         elif kind == 'prop':
             w.ind()
             key, val = t['properties'][k]
-            w.ident(key)
+            w.key(key)
             w.p(':')
             w.sp()
             w.string(val)
@@ -683,7 +691,7 @@ def write_project(w: W, p):
         if kind == 'item':
             w.ind()
             key, val = p['items'][k]
-            w.ident(key)
+            w.key(key)
             w.p(':')
             w.sp()
             w.string(val)
